@@ -98,6 +98,22 @@ def s_scratch_vs_slice_register(v):
     ]
 
 
+def _s_slice_only(start, stop):
+    def s(v):
+        a = v("a", *I32)
+        return [
+            Ins("array", [Lit(3), Addr(0)]),
+            Ins("store", [Lit(5), Entry(0, Lit(0))]),
+            Ins("store", [Lit(6), Entry(0, Lit(1))]),
+            Ins("wait_all", [Slice(0, R("R", start), R("R", stop))]),   # both registers come from an earlier subroutine (INIT) and are
+            Ins("store", [Lit(a), Entry(0, Lit(2))]),                   # named only as slice bounds; the literals need scratch registers
+            Ins("wait_any", [Slice(0, R("R", start), R("R", stop))]),
+            Ins("ret_arr", [Addr(0)]),
+            Ins("ret_reg", [R("R", 2)]),
+        ]
+    return s
+
+
 def s_loop_label_at_top(v):
     n = v("n", 0, 3)
     return [
@@ -243,6 +259,8 @@ SCHEMAS = {
     "arrays: literal sizes, values, indices; argument brackets": s_arrays,
     "a literal next to a register used only as an array index": s_scratch_vs_index_register,
     "slice bounds: registers and literals": s_scratch_vs_slice_register,
+    "literals next to registers used only as slice bounds (start R0, stop R1)": _s_slice_only(0, 1),
+    "literals next to registers used only as slice bounds (start R1, stop R0)": _s_slice_only(1, 0),
     "label in front of the first instruction": s_loop_label_at_top,
     "backward loop to index zero": s_backward_loop_from_index_zero,
     "consecutive labels, label past the end, labels around inserted sets": s_labels_everywhere,
@@ -298,7 +316,9 @@ class Tracer:
 
 
 INIT = {"backward loop to index zero": [(("R", 0), 0)],
-        "a literal next to a register used only as an array index": [(("R", 0), 1)]}
+        "a literal next to a register used only as an array index": [(("R", 0), 1)],
+        "literals next to registers used only as slice bounds (start R0, stop R1)": [(("R", 0), 0), (("R", 1), 2), (("R", 2), 11)],
+        "literals next to registers used only as slice bounds (start R1, stop R0)": [(("R", 1), 0), (("R", 0), 2), (("R", 2), 11)]}
 
 
 def _run(ctx, sub, init=()):
